@@ -64,9 +64,25 @@ func runC08(c *Ctx) {
 	// tasks nothing skips a task (not its node's condition, not its age): a pod that keeps running on a cordoned or
 	// NotReady node still consumes its queue's limit and quota.
 	if up := c.Anchor("O13", pkgProportion, "proportionPlugin", "updateQueuesCurrentResourceUsage"); up != nil {
-		acc := p.Func(pkgProportion, "proportionPlugin", "updateQueuesResourceUsageForAllocatedJob")
+		// the accumulation step, found by what it does: a call into a function that writes ResourceShare.Allocated
+		// (itself or in a closure it creates), or that write itself when the step is written out in the loop
+		allocWriters := map[*ssa.Function]bool{}
+		for f := range p.writersOf(p.fieldVars(pkgResShare, "ResourceShare", "Allocated")) {
+			allocWriters[f] = true
+			allocWriters[rootFunc(f)] = true
+		}
 		n := 0
-		for _, h := range p.deepFind(up, isCallToFn(acc), 2) {
+		for _, h := range p.deepFind(up, func(in ssa.Instruction) bool {
+			if cc, ok := in.(ssa.CallInstruction); ok {
+				cal := cc.Common().StaticCallee()
+				return cal != nil && allocWriters[cal] && cal != up
+			}
+			if st, ok := in.(*ssa.Store); ok && in.Parent() == up {
+				fa, isFA := st.Addr.(*ssa.FieldAddr)
+				return isFA && fieldOfAddr(fa).Name() == "Allocated" && strings.HasSuffix(typeKey(fa.X.Type()), "resource_share.ResourceShare")
+			}
+			return false
+		}, 2) {
 			in := h.In
 			if loopHeaderOf(in.Block()) == nil {
 				continue
